@@ -59,13 +59,13 @@ class Parser(Task):
             ctx.oblige("post.shape-with-component-count", veq(ctx, lst(v), shape), "P")
         elif self.fn == "indices_from_header":
             ok = isinstance(v, list) and len(v) == 2
-            ctx.oblige("post.returns-start-and-stop", ok, "P")
+            ctx.structure("post.returns-start-and-stop", ok)
             if ok:
                 ctx.oblige("post.start-is-lo", veq(ctx, lst(v[0]), lo), "P")
                 ctx.oblige("post.stop-is-hi", veq(ctx, lst(v[1]), hi), "P")
         elif self.fn == "indexes_and_shape_from_header":
             ok = isinstance(v, tuple) and len(v) == 2
-            ctx.oblige("post.returns-indexes-and-shape", ok, "P")
+            ctx.structure("post.returns-indexes-and-shape", ok)
             if ok:
                 ctx.oblige("post.start-is-lo", veq(ctx, lst(v[0][0]), lo), "P")
                 ctx.oblige("post.stop-is-hi", veq(ctx, lst(v[0][1]), hi), "P")
